@@ -525,6 +525,51 @@ def sec_missing(rep, tier):
                     rep.check(f"C08/missing/weights/{kind}/nf={nf}/ihq={ihq}/pto_evol={pto_evol}", case, sy, [sy.x > 0, sy.x < 1, sy.Q2 > 0] + sy.mass_pre())
 
 
+def sec_missing_bounded(rep, tier):
+    """BOUNDED stand-in for the coefficient functions of the 'missing' channel (LeProHQ dq1 + Adler
+    spline: numerical, no contract reaches them): the real massive kernel of generate_missing and the
+    real asymptotic kernels of generate_missing_asy are evaluated with floats at Q2/m2 = 1e4 and 1e6,
+    z in {0.1, 0.5}: (a) reg+sing pointwise, (b) T[1_[z,1]] = loc(z) + int_z^1 reg (fixes the local
+    term).  Each must agree to 2e-3 of its size at 1e6 and not be worse than at 1e4.  Never counted
+    as discharged."""
+    global EPS_NATIVE
+    from yadism.coefficient_functions import heavy
+    from yadism.coefficient_functions.asy import kernels as asyk
+
+    sy0 = H.Sy(extra="z eps")
+    keep = EPS_NATIVE
+    try:
+        for kind in ("F2", "FL", "g1"):
+            res = {}
+            for eps in (1e-4, 1e-6):
+                EPS_NATIVE = eps
+                sy = sy0.numeric({"z": 0.3, "x": 0.1, "Q2": 30.0})
+                _set_mass(sy)
+                cfg = _cfg(sy, "NC", 2)
+                esf = H.FakeESF(sy.x, sy.Q2, H.obs_name(kind, "light"), cfg)
+                hk = heavy.kernels.generate_missing(esf, 3, 4)
+                ak = asyk.generate_missing_asy(esf, 3, 4, 2)
+                hs, as_ = _kernel_sum(sy, hk, 2), _kernel_sum(sy, ak, 2)
+                pid = 1
+                for z in (0.1, 0.5):
+                    res[("rs", z, eps)] = (hs[pid]["reg"](z) + hs[pid]["sing"](z), as_[pid]["reg"](z) + as_[pid]["sing"](z))
+                    res[("T", z, eps)] = (_unit_functional(hs[pid], z), _unit_functional(as_[pid], z))
+            for q, label in (("rs", "reg+sing-pointwise"), ("T", "T[1_[z,1]]-local-term")):
+                rep.cases += 1
+                bad = []
+                for z in (0.1, 0.5):
+                    d4 = abs(res[(q, z, 1e-4)][0] - res[(q, z, 1e-4)][1])
+                    h6, a6 = res[(q, z, 1e-6)]
+                    d6 = abs(h6 - a6)
+                    if not (d6 <= 2e-3 * max(1.0, abs(h6), abs(a6)) and d6 <= max(d4, 1e-6) * 1.5):
+                        bad.append((z, round(h6, 4), round(a6, 4), round(d4, 4)))
+                o = Ob(f"C08/missing/bounded/NC-{kind}-non-singlet/{label}/massive->asymptotic@Q2/m2=1e4,1e6", "bounded", PROVED if not bad else "refuted", "native", 0, "agree" if not bad else f"(z, massive at 1e6, asymptotic at 1e6, |difference| at 1e4): {bad}", {} if not bad else {"Q2/m2": 1e6, "z": bad[0][0], "massive": bad[0][1], "asymptotic": bad[0][2]}, {"confirmed": True, "note": "evaluated on the real kernels with floats"} if bad else {})
+                o.bounded = True
+                rep.add(o)
+    finally:
+        EPS_NATIVE = keep
+
+
 def sec_weights(rep, tier):
     """Weight correspondence for EVERY (nf, heavy flavour above nf) -- also the non-adjacent ones
     (bottom or top with nf = 3) that the limit sections do not enumerate: per channel the asymptotic
@@ -626,7 +671,7 @@ def _any_worker(sub, tagged):
 
 
 def run(rep, tier, seed, only=None):
-    secs = {"heavy": lambda: sec_heavy(rep, tier), "intrinsic": lambda: sec_intrinsic(rep, tier), "nnlo": lambda: sec_heavy_nnlo(rep, tier), "missing": lambda: sec_missing(rep, tier), "weights": lambda: sec_weights(rep, tier), "schemedispatch": lambda: H.scheme_families(rep, tier), "selfcheck": lambda: sec_selfcheck(rep)}
+    secs = {"heavy": lambda: sec_heavy(rep, tier), "intrinsic": lambda: sec_intrinsic(rep, tier), "nnlo": lambda: sec_heavy_nnlo(rep, tier), "missing": lambda: sec_missing(rep, tier), "weights": lambda: sec_weights(rep, tier), "missingbounded": lambda: sec_missing_bounded(rep, tier), "schemedispatch": lambda: H.scheme_families(rep, tier), "selfcheck": lambda: sec_selfcheck(rep)}
     # the long O(a_s^2) items run first and share the pool with the short ones
     rep.extra["_gather"] = [] if rep.replay_target is None else None
     for name, f in secs.items():
